@@ -34,6 +34,11 @@ func scenarios(c *vlib.Ctx) []*slib.Scn {
 			// no item at all
 			add(modules.C05Params{Graph: graph, StopFn: "plain", Trigger: trig}, bound)
 			add(modules.C05Params{Graph: graph, StopFn: "error", Trigger: trig, Items: []string{"worker"}}, bound)
+			add(modules.C05Params{Graph: graph, StopFn: "error", Trigger: trig}, bound)
+			// a panicking stop routine: the module still finishes stopping at once
+			add(modules.C05Params{Graph: graph, StopFn: "panic", Trigger: trig}, bound)
+			add(modules.C05Params{Graph: graph, StopFn: "panic", Trigger: trig, Items: []string{"worker"}, ItemPts: 1}, bound)
+			add(modules.C05Params{Graph: graph, StopFn: "panic", Trigger: trig, Items: []string{"mt-signal"}, ItemPts: 1}, bound)
 			// pairs of items
 			for i, a := range kinds {
 				for _, b := range kinds[i:] {
